@@ -22,15 +22,23 @@ Proof. apply ext_same. now destruct (upd_conn s c v) as (_ & _ & O & _). Qed.
 Lemma ext_write s c n str : ext s (write s c n str).
 Proof. exists [{| o_chan := c; o_name := n; o_str := str; o_sent := negb (s_sendfail s) |}]. now destruct (write_chans s c n str) as (_ & _ & _ & W & _). Qed.
 
-Lemma ext_on_frame s c f : ext s (on_frame s c f).
+Lemma ext_on_frame_plain s c v f : ext s (on_frame_plain s c v f).
 Proof.
-  unfold on_frame. destruct (get_chan (s_chans s) c) as [v|]; [|apply ext_refl].
+  unfold on_frame_plain.
   destruct (req_get (c_req v) (f_name f)).
   - destruct (resp_get (c_resp v) n); [apply ext_upd | apply ext_refl].
   - destruct (is_content (f_name f)); [apply ext_upd|].
     destruct (f_name f); try apply ext_refl; try apply ext_upd.
     unfold close_channel. eapply ext_trans; [|apply ext_upd].
     destruct (st_eqb (s_conn s) CLOSED); [apply ext_refl | apply ext_write].
+Qed.
+
+Lemma ext_on_frame s c f : ext s (on_frame s c f).
+Proof.
+  unfold on_frame. destruct (get_chan (s_chans s) c) as [v|]; [|apply ext_refl].
+  destruct (c_ret v) as [lft|]; [|apply ext_on_frame_plain].
+  destruct (ret_content lft f); [apply ext_upd|].
+  eapply ext_trans; [apply ext_upd | apply ext_on_frame_plain].
 Qed.
 
 Lemma ext_deliver s cf : ext s (deliver s cf).
